@@ -181,6 +181,13 @@ func genOCI(r *rand.Rand) *oci.Spec {
 			if chance(r, 50) {
 				l.Resources.Devices = append(l.Resources.Devices, oci.LinuxDeviceCgroup{Allow: true, Type: "c", Major: &mj, Minor: &mn, Access: "rw"})
 			}
+			if chance(r, 30) {
+				// the very rules the edits are going to add (host nodes null, zero, loop0, loop9 with the default access)
+				for _, x := range [][3]int64{{'c', 1, 3}, {'c', 1, 5}, {'b', 7, 0}, {'b', 7, 9}} {
+					mj, mn := x[1], x[2]
+					l.Resources.Devices = append(l.Resources.Devices, oci.LinuxDeviceCgroup{Allow: true, Type: string(rune(x[0])), Major: &mj, Minor: &mn, Access: pickStr(r, "rwm", "rwm", "r", "rw")})
+				}
+			}
 			// rules a runtime typically has in place: wildcards (absent major and/or
 			// minor), and rules for the very numbers the edits may add later
 			for k := r.Intn(4); k > 0; k-- {
